@@ -469,6 +469,8 @@ def run_case(ctx: Any, env: Env, case: dict[str, Any], uniform: dict[str, Any], 
                 key = f"C12:expired-cursor-served:{'cache-hit' if live_hit else 'cache-miss'}"
             elif _same_envelope(cursor, cur0) and _same_envelope(call, call0) and (cursor != cur0 or call != call0):
                 key = f"C12:noncanonical-base64-accepted:{'cursor' if cursor != cur0 else 'call'}"
+            elif matched is None and any(cursor in s_["cursors"] and s_["spec"]["key"] != serving_key.hex() for s_ in env.streams.values()):
+                key = f"C12:foreign-key-token-accepted:{cls}"
             else:
                 key = f"C12:forged-accepted:{tgt}:{mkey}:{cls}"
             why = ("the stream's call token is older than the TTL "
@@ -750,6 +752,42 @@ def k_framing(ctx: Any) -> None:
                     ctx.mismatch(case, m, impl, f"{what}: model vs implementation")
 
 
+def k_keys(ctx: Any) -> None:
+    """`crypto.normalize_key` against its documented contract (32 bytes: itself; otherwise SHA-256 of the *whole* key), and
+    the property it serves: two different operator keys never derive the same AEAD key (short of the documented
+    `K` / `sha256(K)` identification, which the spec function makes too)."""
+    from vgi_rpc import crypto
+
+    rng = ctx.rng
+    stems = [b"k" * 32, bytes(range(32)), b"\x00" * 32, hashlib.sha256(b"s").digest()]
+    keys: list[bytes] = [b"", b"\x00", b"k" * 16, b"k" * 31, b"k" * 33, b"k" * 64]
+    for st in stems:
+        keys += [st, st[:16], st[:31], st[1:], st + b"\x00", st + b"a", st + b"b", st + b"-eu-west", st + b"-us-east", b"a" + st,
+                 st * 2, st + st[::-1], st[:31] + b"x"]
+    for _ in range(ctx.budget(100, 3000)):
+        st = rng.choice(stems)
+        n = rng.choice([0, 1, 15, 16, 17, 31, 32, 33, 48, 63, 64, 65, 100])
+        k = (st * 4)[:n]
+        if rng.random() < 0.5 and k:
+            j = rng.randrange(len(k))
+            k = k[:j] + bytes([k[j] ^ (1 << rng.randrange(8))]) + k[j + 1 :]
+        keys.append(k)
+    derived: dict[bytes, bytes] = {}
+    for k in dict.fromkeys(keys):
+        got = crypto.normalize_key(k)
+        want = T.spec_key(k)
+        case = {"kind": "key", "key": k.hex()}
+        ctx.case(case, nontrivial=True, tags=("k:normalize_key", f"keylen:{'<32' if len(k) < 32 else '32' if len(k) == 32 else '>32'}"))
+        if got != want:
+            ctx.mismatch(case, want.hex(), got.hex(), "normalize_key: documented derivation vs implementation")
+        if len(got) != 32:
+            fail(ctx, case, "C12:derived-key-length", f"normalize_key returned {len(got)} bytes")
+        if got in derived and T.spec_key(derived[got]) != want:
+            fail(ctx, {**case, "other": derived[got].hex()}, "C12:key-derivation-collision",
+                 f"operator keys {derived[got]!r} and {k!r} derive the same AEAD key: a token sealed under one opens under the other")
+        derived.setdefault(got, k)
+
+
 def k_base64(ctx: Any) -> None:
     from vgi_rpc.http.server import _state_token as st
 
@@ -905,14 +943,22 @@ def campaign(ctx: Any, env: Env, uniform: dict[str, Any]) -> None:
             go({"stream": a, "other": b, "mutation": {"target": "cursor", "op": "replace_with_other"}, "present": present(wk, alice, m)})
 
     # 3. foreign keys (server keys of every length), incl. the same identity and method
-    keys = [b"", b"\x01", b"k" * 31, b"K" * 32, b"k" * 33, b"k" * 64, hashlib.sha256(b"x").digest()]
-    for i, fk in enumerate(keys):
+    #    — and keys that *share bytes* with the server key (prefix / suffix / extension / rotation suffix), on both sides:
+    #    a token sealed under any other operator key must be refused whatever the key derivation does with the bytes
+    long_a, long_b = MAIN_KEY + b"-eu-west", MAIN_KEY + b"-us-east"
+    pairs: list[tuple[bytes, bytes]] = [(MAIN_KEY, fk) for fk in (
+        b"", b"\x01", b"k" * 31, b"K" * 32, b"k" * 33, b"k" * 64, hashlib.sha256(b"x").digest(),
+        MAIN_KEY[:16], MAIN_KEY[:31], MAIN_KEY[:31] + b"x", b"x" + MAIN_KEY[1:], MAIN_KEY + b"\x00", MAIN_KEY + b"1",
+        b"x" + MAIN_KEY, MAIN_KEY * 2, long_a)]
+    pairs += [(long_a, long_b), (long_a, MAIN_KEY), (b"s" * 16, b"s" * 16 + b"\x00" * 16), (b"r" * 33, b"r" * 34), (b"q" * 64, b"q" * 63),
+              (b"p" * 40 + b"v1", b"p" * 40 + b"v2")]
+    for i, (ok, fk) in enumerate(pairs):
         m = methods[i % len(methods)]
         theirs = stream_spec(m, 300 + i, alice, turns=1, key=fk)
-        ours = stream_spec(m, 300 + i, alice, turns=1)
+        ours = stream_spec(m, 300 + i, alice, turns=1, key=ok)
         for wk in ("warm", "cold"):
             # their tokens at our server
-            go({"stream": theirs, "mutation": {"target": "none", "op": "none"}, "present": present(wk, alice, m, key=MAIN_KEY)})
+            go({"stream": theirs, "mutation": {"target": "none", "op": "none"}, "present": present(wk, alice, m, key=ok)})
             # our call token with their cursor, and the reverse
             go({"stream": ours, "other": theirs, "mutation": {"target": "cursor", "op": "replace_with_other"}, "present": present(wk, alice, m)})
             go({"stream": ours, "other": theirs, "mutation": {"target": "call", "op": "replace_with_other"}, "present": present(wk, alice, m)})
@@ -1022,6 +1068,7 @@ def run(ctx: Any) -> None:
         sh = ctx.driver.call("Token.shape", {})
         ctx.note("model_shape", sh)
     k_identity(ctx)
+    k_keys(ctx)
     k_framing(ctx)
     k_base64(ctx)
     env = Env()
@@ -1039,6 +1086,9 @@ def replay(ctx: Any, case: dict[str, Any]) -> None:
     kind = case.get("kind")
     if kind in ("aad", "aad-kinds"):
         k_identity(ctx)
+        return
+    if kind == "key":
+        k_keys(ctx)
         return
     if kind in ("b64",):
         k_base64(ctx)
